@@ -395,3 +395,32 @@ def r_dangling(db, rep):
                 rep.viol("%s#dangling-%s" % (ld.qn, fld), ld.nloc(n),
                          "%s returns an object whose field %s points to freed memory; %s use(s) it" % (
                              ld.qn, fld, ", ".join(sorted(set(u.qn for u in us))[:6])), ld.qn)
+
+
+@rule("R-CONSTPURE", 30, "the bundled succinct structures' query methods (access / rank* / select* / getSize ... declared const) write "
+                         "nothing reachable from the object and no global: answers cannot depend on earlier or concurrent queries")
+def r_constpure(db, rep):
+    E = get_effects(db)
+    pairs = [(w, r) for w, r in rules_serial.find_pairs(db) if not rules_serial.is_dispatcher(db, r)]
+    cone = rules_serial.mirror_cone(db, pairs)
+    seen = set()
+    for rec in sorted(cone):
+        if rec not in db.records or not rec.startswith("cds_"):
+            continue
+        for m in db.methods_of(rec):
+            if not m.raw.get("const") or m.is_ctor or m.is_dtor or m.name in ("save",):
+                continue
+            if not any(m.name.startswith(x) for x in ("access", "rank", "select", "getSize", "getLength", "count", "is_set", "done", "map", "unmap")):
+                continue
+            rep.visit(m)
+            S = E.sum[m.id]
+            rep.inst(m.loc, "%s const: MOD=%d" % (m.qn, len(S.mod)))
+            bad = []
+            for (r, l) in sorted(S.mod, key=str):
+                rep.ob()
+                if r[0] in ("this", "global") and not allowed_global(r):
+                    bad.append(("mod", (r, l)))
+            for key, loc, msg, fn in report_effects(db, E, rep, m, bad, "const", "const query method is not pure"):
+                if key not in seen:
+                    seen.add(key)
+                    rep.viol(key, loc, msg, fn)
